@@ -32,6 +32,9 @@ enum Call {
     TrySendRt(usize),
     TrySendOptRt(usize),
     OptNonePanic(usize, u8),
+    /// 33 consecutive non-blocking sends (variant chosen by the second field): crosses the initial
+    /// allocation of the buffer of an unbounded channel, fills any bounded one
+    Burst(usize, u8),
     SFutNew(usize),
     SFutPoll(usize, usize),
     SFutDrop(usize),
@@ -235,6 +238,9 @@ impl<T: Payload> World<T> {
             if i == ls[0] {
                 for k in 0..3 {
                     c.push(Call::OptNonePanic(i, k));
+                }
+                for k in 0..2 {
+                    c.push(Call::Burst(i, k));
                 }
             }
             if Self::count_live(&self.sfuts) < MAX_FUTS {
@@ -474,6 +480,18 @@ impl<T: Payload> World<T> {
                 if has != keeps {
                     return Err(format!("{}: returned {} and left the Option {} (must be Some exactly on failure, None exactly on success)", what, got, if has { "Some" } else { "None" }));
                 }
+            }
+            Call::Burst(i, k) => {
+                for n in 0..33 {
+                    let sub = match (k + n as u8) % 4 {
+                        0 => Call::TrySendRt(i),
+                        1 => Call::TrySend(i),
+                        2 => Call::TrySendOptRt(i),
+                        _ => Call::TrySendOpt(i),
+                    };
+                    self.apply(sub)?;
+                }
+                return Ok(());
             }
             Call::OptNonePanic(i, k) => {
                 let h = self.sh(i);
